@@ -16,6 +16,14 @@ TRUSTED_EXTRA = [
 ASSUMPTIONS = ["target misfit, kinetic energy and the PRNG are parameters of the model: a transition is handed the values they returned"]
 
 
+def _sc(v):
+    """a logged misfit as a float, however the target spelled it (float, numpy scalar, 0-d / (1,) / (1, 1) array); None stays None"""
+    if v is None:
+        return None
+    a = np.asarray(v, dtype=float)
+    return float(a.reshape(-1)[0]) if a.size == 1 else v
+
+
 class Nasty:
     """Wraps a distribution instance: misfit returns scripted special values at chosen call indices."""
 
@@ -31,6 +39,20 @@ class Nasty:
             if state["k"] > 1 and rnd.random() < rate:  # never the initial evaluation
                 return rnd.choice(specials + [v, v])
             return v
+
+        dist.misfit = misfit
+
+
+class ArrayValued:
+    """Wraps a distribution instance: misfit returns its value as a fresh numpy array object of the given shape."""
+
+    @staticmethod
+    def install(dist, shape):
+        orig = dist.misfit
+
+        def misfit(m):
+            v = float(orig(m))
+            return {"0d": np.array(v), "(1,)": np.array([v]), "(1,1)": np.array([[v]])}[shape]
 
         dist.misfit = misfit
 
@@ -75,12 +97,19 @@ def run_chain(rnd, sampler_kind, tier):
     nasty = rnd.random() < 0.35
     if nasty:
         Nasty.install(dist, rnd, 0.3)
-    calls = CallLog()
-    calls.wrap(dist, "misfit")
     q0 = inside_start(rnd, d, lb, ub)
     P = rnd.choice([1, 2, 5, 12, 20]) if not thorough else rnd.choice([1, 5, 20, 40])
     seed = rnd.randrange(1 << 30)
-    desc = {"sampler": sampler_kind, "target": tdesc, "nasty": nasty, "proposals": P, "rng_seed": seed, "q0": q0.ravel().tolist()}
+    # "all targets": a user-written target may return its misfit as an array object (the (1, 1) result of r.T @ C_inv @ r, a (1,) or a 0-d array)
+    # instead of a float - a *mutable* value, which the sampler must not modify in place. Drawn from a stream of its own.
+    rr = random.Random(seed ^ 0x1B873593)
+    misfit_repr = rr.choice(["0d", "(1,)", "(1,1)"]) if rr.random() < 0.3 else "float"
+    if misfit_repr != "float":
+        ArrayValued.install(dist, misfit_repr)
+    calls = CallLog()
+    calls.wrap(dist, "misfit")
+    desc = {"sampler": sampler_kind, "target": tdesc, "nasty": nasty, "proposals": P, "rng_seed": seed, "q0": q0.ravel().tolist(),
+            "misfit_returned_as": misfit_repr}
     if sampler_kind == "RWMH":
         Snap = snapshot_sampler_class(S.RWMH)
         s = Snap(seed=1)
@@ -172,7 +201,7 @@ def check_transitions(desc, trans, sampler_kind, userstep, st, findings, reqs, m
                 st.case(stim)
                 st.disagree(stim, ["normal", "uniform"], [k for k, _ in draws], "draw script of an RWMH transition")
                 continue
-            px = last_value(calls, "misfit", pre["proposed_model"])
+            px = _sc(last_value(calls, "misfit", pre["proposed_model"]))
             scale = np.ones((d, 1)) * userstep if not isinstance(userstep, np.ndarray) else userstep
             if tuned is not None and ti < len(tuned):
                 # autotuned run: the step recorded for proposal i is the one that generated it (C16); a per-dimension array keeps its pattern
@@ -194,8 +223,8 @@ def check_transitions(desc, trans, sampler_kind, userstep, st, findings, reqs, m
                 st.case(stim)
                 st.disagree(stim, want, kinds, "draw script of an HMC transition")
                 continue
-            cx = first_value(calls, "misfit", pre["model"])
-            px = last_value(calls, "misfit", pre["proposed_model"])
+            cx = _sc(first_value(calls, "misfit", pre["model"]))
+            px = _sc(last_value(calls, "misfit", pre["proposed_model"]))
             # the momentum of the current state is the one that was drawn for this proposal (recorded when generate_momentum returned it),
             # whatever the sampler's attribute says by the time of the acceptance test
             drawn = [r for n_, a_, r in calls if n_ == "generate_momentum"]
